@@ -273,6 +273,11 @@ class TemporalAdaptor:
                     o[f"get_edge_metadata({e!r},{t})"] = E[k][1]
         for f in FILTERS:
             o[f"degree_sequence({fname(f)})"] = {repr(n): sum(1 for k in E if n in k[1] and sel(len(k[1]), f)) for n in V}
+            dd = {}
+            for n in V:
+                d = sum(1 for k in E if n in k[1] and sel(len(k[1]), f))
+                dd[str(d)] = dd.get(str(d), 0) + 1
+            o[f"degree_distribution({fname(f)})"] = dd
             for n in V:
                 inc = [k for k in E if n in k[1] and sel(len(k[1]), f)]
                 o[f"get_incident_edges({n!r},{fname(f)})"] = msort(show(k) for k in inc)
@@ -360,6 +365,7 @@ class TemporalAdaptor:
                     q(f"get_edge_metadata({e!r},{t})", lambda e=e, t=t: h.get_edge_metadata(e, t))
         for f in FILTERS:
             q(f"degree_sequence({fname(f)})", lambda f=f: {repr(n): d for n, d in h.degree_sequence(**f).items()})
+            q(f"degree_distribution({fname(f)})", lambda f=f: {str(k): v for k, v in h.degree_distribution(**f).items()})
             for n in nodes:
                 q(f"get_incident_edges({n!r},{fname(f)})", lambda n=n, f=f: msort(S(e) for e in h.get_incident_edges(n, **f)))
                 q(f"degree({n!r},{fname(f)})", lambda n=n, f=f: h.degree(n, **f))
